@@ -143,7 +143,12 @@ def parSearchStep (c : Cfg) (st : St) : Item → St × Bool
       | .ok =>
         let st := { st with out := st.out ++ [id] }
         (st, st.matched && c.qam)
-    | _ => (errMessage c st (.file id), false)      -- every `Err`, BrokenPipe included
+    | _ =>
+      -- every `Err`, BrokenPipe included. Since 1ed0364 the worker's buffer (what the file yielded before
+      -- the failure) is printed first; a broken pipe there quits quietly, any other write error is ignored.
+      match wr with
+      | .pipe => ({ st with brokenPipe := true }, true)
+      | _ => (errMessage c st (.file id), false)
 
 /-- Fold over the invocations that ran; second component: some invocation returned `Quit`. -/
 def parSearchLoop (c : Cfg) : List Item → St → St × Bool
@@ -245,5 +250,46 @@ def main (c : Cfg) (p : Parse) (items : List Item) : Final :=
   | (st, some (.ok matched)) => ⟨exitCode matched c.quiet st.errored, st.diags, st.out⟩
   | (st, some .errPipe) => ⟨0, st.diags, st.out⟩
   | (st, some .errOther) => ⟨2, st.diags ++ [.fatal], st.out⟩
+
+/-! ### `--stats` (also implied by `--json`): `stats += search_result.stats()` and `print_stats`
+
+Only the two file counters are modelled: "files searched" (`searches`) and "files contained matches"
+(`searches_with_match`).  A search that returns `Err` contributes nothing.  The summary is printed after
+the loop iff the driver returns `Ok` (a broken pipe returns early; errors of `print_stats` itself are
+ignored). -/
+
+structure Stats where
+  searches : Nat := 0
+  withMatch : Nat := 0
+  deriving Repr, DecidableEq, Inhabited
+
+def Stats.add (s : Stats) (m : Bool) : Stats := ⟨s.searches + 1, s.withMatch + (if m then 1 else 0)⟩
+
+/-- `search`: the loop of `searchLoop`, tracking the counters; `none` = left through `return Err(..)`. -/
+def searchStats (c : Cfg) : List Item → Bool → Stats → Option Stats
+  | [], _, s => some s
+  | .walkErr :: rest, matched, s => searchStats c rest matched s
+  | .skip :: rest, matched, s => searchStats c rest matched s
+  | .file _ sr _ :: rest, matched, s =>
+    match sr with
+    | .pipe => none
+    | .err => searchStats c rest matched s
+    | .ok m =>
+      let matched := matched || m
+      let s := s.add m
+      if matched && c.qam then some s else searchStats c rest matched s
+
+/-- `search_parallel`: every callback whose search returned `Ok` adds its counters under the mutex. -/
+def parStats : List Item → Stats → Stats
+  | [], s => s
+  | .file _ (.ok m) _ :: rest, s => parStats rest (s.add m)
+  | _ :: rest, s => parStats rest s
+
+/-- The summary `run` prints, if any. -/
+def statsPrinted (c : Cfg) (ran : List Item) : Option Stats :=
+  if !c.stats || c.mode != .search || !c.matchesPossible || !c.setupOk then none
+  else if !c.parallel then searchStats c ran false {}
+  else if (parSearchLoop c ran {}).1.brokenPipe then none
+  else some (parStats ran {})
 
 end RgVerif.Exit
